@@ -1,6 +1,7 @@
 package olvm
 
 import (
+	"bytes"
 	"encoding/json"
 	"fmt"
 	"math/big"
@@ -153,6 +154,12 @@ func (tx *Transaction) validateSigner(ctx *action.Context, signedTx action.Signe
 	if !tx.From.Equal(addr.Bytes()) {
 		return errors.New("mismatch sender")
 	}
+	// the signer key travels next to the signature and is covered by nothing (the sender is recovered):
+	// it has to be the sender's own key
+	h, err := signedTx.Signatures[0].Signer.GetHandler()
+	if err != nil || !tx.From.Equal(h.Address()) {
+		return errors.New("mismatch signer key")
+	}
 	return nil
 }
 
@@ -230,6 +237,12 @@ func (otx olvmTx) Validate(ctx *action.Context, signedTx action.SignedTx) (bool,
 	// the chain id is a pointer that is compared later
 	if tx.ChainID == nil {
 		return false, ethtypes.ErrInvalidChainId
+	}
+	// the signature covers the payload only through the fields extracted from it: only its canonical
+	// serialisation is accepted, otherwise the same signed transaction exists in endlessly many encodings,
+	// each with another hash for the replay lookup
+	if canonical, err := tx.Marshal(); err != nil || !bytes.Equal(canonical, signedTx.Data) {
+		return false, errors.New("payload is not in its canonical encoding")
 	}
 
 	//validate basic signature
